@@ -140,7 +140,9 @@ def stepMux (capped : Bool) (evS declS hex impl : String) : DrvOut :=
 /-- e2e list k (init hex)^k -/
 def stepE2EList (variant : String) (args0 : List String) (impl : String) : DrvOut :=
   -- end = start of the first segment: the later segments (10 s apart) are not selected, hence not parsed
-  let args := if variant == "listE0" || variant == "listSE0" then args0.take 2 else args0
+  -- listA: start is after every segment start: FindSegments keeps the LAST segment only
+  let args := if variant == "listE0" || variant == "listSE0" then args0.take 2
+    else if variant == "listA" then args0.drop (args0.length - 2) else args0
   let rec go : List String → Bool → Bool → Bool → Bool → Option (Bool × Bool × Bool × Bool)
     | [], anyPanic, anyErr, fxErr, bad => some (anyPanic, anyErr, fxErr, bad)
     | i :: h :: rest, anyPanic, anyErr, fxErr, bad =>
